@@ -273,7 +273,7 @@ def gen_cart_exact(rng, n):
             pt = [(rng.randrange(k) + rng.choice([0.0, 0.5, 0.25])) * cs for _ in range(3)]
             m = rng.randint(1, 2 * k)
             tau = m * cs * rng.choice([1.0, 0.5, 0.25])       # lands on a wall, a box face, or mid cell
-            ops.append("cart ray %s" % " ".join(fb(v) for v in pt + d + [tau, 1.0, 0.0]))
+            ops.append("cart %s %s" % (rng.choice(["ray", "ray", "reray"]), " ".join(fb(v) for v in pt + d + [tau, 1.0, 0.0])))
     return ops
 
 
@@ -364,7 +364,8 @@ def gen_cart(rng, ngrids, nloc, nray, thorough):
             if anyper:
                 u = min(u, 6.0)
             tau = kappa * sh * L * u
-            ops.append("cart ray %s" % " ".join(fb(v) for v in pt + d + [tau, sh, she]))
+            # half of the photons are redirected ones (set_direction after a first trace)
+            ops.append("cart %s %s" % (rng.choice(["ray", "reray"]), " ".join(fb(v) for v in pt + d + [tau, sh, she])))
     return ops
 
 
@@ -471,6 +472,43 @@ def gen_oct(rng, nsets, nq):
 
 
 
+# ---- VoronoiDensityGrid (oracle only: volumes, point location = nearest generator, traversal tied
+# to the geometry through get_cell_index), old and new construction algorithm, 0 / 1 / 3 Lloyd iterations
+
+def gen_vor(rng, ngrids, nloc, nray):
+    import math
+    ops = []
+    for gi in range(ngrids):
+        kind, a, s = rand_box(rng)
+        while kind in ("huge", "tiny"):
+            kind, a, s = rand_box(rng)
+        typ = ["Old", "New"][gi % 2]
+        lloyd = [1, 3, 0][(gi // 2) % 3]
+        N = rng.choice([12, 20, 40, 80])
+        gens = [[a[i] + s[i] * (0.02 + 0.96 * rng.random()) for i in range(3)] for _ in range(N)]
+        ds = [rng.choice([0.5, 1.0, 2.0, 5.0]) for _ in range(7)]
+        xs = [rng.choice([1.0, 0.5, 0.1]) for _ in range(5)]
+        ops.append("vor new %s %d %s | %s | %s | %s" % (typ, lloyd, " ".join(fb(v) for v in a + s),
+                   " ".join(fb(v) for g in gens for v in g), " ".join(fb(v) for v in ds), " ".join(fb(v) for v in xs)))
+        for _ in range(nloc):
+            ops.append("vor loc %s" % " ".join(fb(a[i] + s[i] * rng.random()) for i in range(3)))
+        L = min(s)
+        for _ in range(nray):
+            pt = [a[i] + s[i] * (0.01 + 0.98 * rng.random()) for i in range(3)]
+            if rng.random() < 0.2:
+                d = [0.0, 0.0, 0.0]
+                d[rng.randrange(3)] = rng.choice([1.0, -1.0])
+            else:
+                ct = 2 * rng.random() - 1
+                st = math.sqrt(max(0.0, 1 - ct * ct))
+                ph = 2 * math.pi * rng.random()
+                d = [st * math.cos(ph), st * math.sin(ph), ct]
+            sh = rng.choice([1.0, 2.5])
+            tau = sh * L * rng.choice([0.05, 0.3, 1.0, 3.0, 50.0]) * rng.random()
+            ops.append("vor %s %s" % (rng.choice(["ray", "ray", "reray"]), " ".join(fb(v) for v in pt + d + [tau, sh])))
+    return ops
+
+
 # ---- AMRDensityGrid: the model holds the same tree (explicit refinement keys)
 
 AMRD_NB = [(1, 1, 1), (3, 1, 1), (1, 3, 2), (3, 3, 3), (2, 3, 1), (5, 2, 1), (1, 1, 3)]
@@ -570,7 +608,7 @@ def gen_amrd(rng, ngrids, nloc, nray, maxcells=900):
             sh = rng.choice([1.0, 0.5, 2.3])
             u = rng.choice([1e-5, 10 ** rng.uniform(-3, -1), rng.uniform(0.1, 1.5), rng.uniform(1.5, 5.0),
                             1e3 if not any(per) else 4.0])
-            ops.append("amrd ray %s" % " ".join(fb(v) for v in pt + d + [kappa * sh * L * u, sh]))
+            ops.append("amrd %s %s" % (rng.choice(["ray", "ray", "reray"]), " ".join(fb(v) for v in pt + d + [kappa * sh * L * u, sh])))
     return ops
 
 # --------------------------------------------------------------------------- run
@@ -602,6 +640,8 @@ def float_positions(w):
 
 def cmp_num(a, b, op):
     """discrete parts identical, doubles within REL (relative) — bit-exact rate recorded"""
+    if op.startswith("vor "):       # VoronoiDensityGrid: no model, judged by the oracles of the harness
+        return True
     b = vlib.strip_branch(b)
     STATS["lines"] += 1
     if a == b:
@@ -621,7 +661,7 @@ def cmp_num(a, b, op):
     return True
 
 
-GROUP = {"amrdensitygrid": lambda op: op.startswith("amrd new"), "buckets": lambda op: op.startswith("pl new"), "octree": lambda op: op.startswith("oct new"), "amr": lambda op: op.startswith("amr new"), "cartesian": lambda op: op.startswith("cart medium")}
+GROUP = {"amrdensitygrid": lambda op: op.startswith("amrd new"), "buckets": lambda op: op.startswith("pl new"), "octree": lambda op: op.startswith("oct new"), "voronoi": lambda op: op.startswith("vor new"), "amr": lambda op: op.startswith("amr new"), "cartesian": lambda op: op.startswith("cart medium")}
 
 
 def harness_kw():
@@ -637,11 +677,16 @@ def harness_kw():
         pass
     inc = sorted(i for i in inc if not i.startswith("-I" + vlib.REPO) and not i.startswith("-I" + vlib.FULL)) + [
         "-I" + os.path.join(vlib.FULL, "include")]
+    # VoronoiDensityGrid (oracle-only stream) comes from the libraries of the tree under test
+    # (incremental build; the sources the Lean models mirror stay compiled into the harness with
+    # -ffp-contract=off and take precedence over the archive members)
+    vlib.full_binary(targets=("LegacyEngine", "SharedEngine"))
+    libs = [os.path.join(vlib.FULL, "lib", "libLegacyEngine.a"), os.path.join(vlib.FULL, "lib", "libSharedEngine.a")]
     return {"extra": inc + [os.path.join(vlib.REPO, "src", "CartesianDensityGrid.cpp"),
-                            os.path.join(vlib.REPO, "src", "DensityGrid.cpp")]}
+                            os.path.join(vlib.REPO, "src", "DensityGrid.cpp")], "libs": libs}
 
 
-OP_STREAM = {"amr": "amr", "cart": "cartesian", "amrd": "amrdensitygrid", "pl": "buckets", "oct": "octree",
+OP_STREAM = {"amr": "amr", "cart": "cartesian", "amrd": "amrdensitygrid", "pl": "buckets", "oct": "octree", "vor": "voronoi",
              "morton": "morton", "inc": "shells", "shell": "shells", "maxrange": "maxrange", "range": "range"}
 
 
@@ -661,7 +706,8 @@ EXPECTED_BRANCHES = (
        "cart-corrected-last-step"] + ["cart-ngb-boundary-%d" % i for i in range(0, 7)]
     + ["pl-all-blocks", "pl-covered"] + ["pl-level-%d" % i for i in range(0, 5)]
     + ["amrd-depth-%d" % i for i in range(0, 4)] + ["amrd-%s-%s" % (a, b) for a in ("absorbed", "escaped") for b in ("1cell", "multi")]
-    + ["amrd-level-change", "amrd-periodic-wrap", "amrd-corrected-last-step"] + ["oct-found-%d" % i for i in range(0, 5)])
+    + ["amrd-level-change", "amrd-periodic-wrap", "amrd-corrected-last-step"] + ["oct-found-%d" % i for i in range(0, 5)]
+    + ["cart-redirected-photon", "amrd-redirected-photon"])
 
 
 def tally(ctx, ops, model, nontrivial=lambda op, ml: True):
@@ -676,7 +722,9 @@ def tally(ctx, ops, model, nontrivial=lambda op, ml: True):
 def run(ctx):
     ctx.level = "proof"
     ctx.assumptions += [
-        "Voronoi grids are not covered (C15 not applicable); Octree::get_closest_ngb and the periodic Octree distances are tied by the differential run and the brute-force oracle only (modelled, no theorem beyond octree_search_is_bruteforce, whose covering hypotheses are then assumptions)",
+        "VoronoiDensityGrid (old and new construction, 0/1/3 Lloyd iterations, non-periodic) has NO Lean model and no theorem (C15 not applicable): it is driven and judged by grid-independent oracles on the implementation only (volumes sum to the box; located cell = cell of the nearest reported generator; every generator in its own cell; path sum; optical depth accounting; chord oracle: the path deposited in each cell equals the chord of the straight segment in that cell as cut by get_cell_index, the absorbed photon ends in the returned cell). The same chord oracle runs on CartesianDensityGrid and AMRDensityGrid",
+        "photons: every traversal is driven with freshly constructed photons AND with photons that were constructed with another direction, traced, and redirected through the public setters set_position/set_direction (the only way PhotonSource::reemit, DustScattering, DustPhotonShootJob and the task based re-emission give a photon a new direction); photon_inverse_direction proves both paths cache 1/direction",
+        "Voronoi grids are otherwise not covered (C15 not applicable); Octree::get_closest_ngb and the periodic Octree distances are tied by the differential run and the brute-force oracle only (modelled, no theorem beyond octree_search_is_bruteforce, whose covering hypotheses are then assumptions)",
         "AMR traversal theorems (amr_path_sum, amr_tau_account, amr_absorbed_cell_contains_end, amr_segments_in_cells) hold for every grid of well-formed trees (depth <= 10, hence every tree reachable by refinements), every medium, every photon and every loop fuel under RayHyp: positive box sides, start in the half-open box, non-zero direction, DBL_MAX above every wall distance, and no leaf spanning the whole box on a periodic axis (such a leaf is its own neighbour: the code spins with ds = 0); NO 2:1 level balance is needed (set_ngbs stores a same-level or coarser neighbour, a coarser one is always a leaf; amr_neighbours_geometric)",
         "octree_build_search_partial: non-periodic tree, positions in the half-open box, any n (fixed defect octree:single-position-search-returns-nothing: one-position trees are generated, the walks start at the leaf root; octree_single_position); brute force over the STORED indices: that every index < n is stored needs the positions to separate within the 64 levels of the model's recursion fuel (the code recurses without bound, equal positions never separate; generators keep positions distinct)",
         "theorems are about exact arithmetic (Nat/Int for keys and traversals, real numbers for the geometric parts); IEEE rounding is not modelled, the tie is the bit-exact differential run on doubles",
@@ -700,6 +748,7 @@ def run(ctx):
         ("amr", gen_amr(rng, ctx.budget(40, 600), ctx.budget(25, 60), ctx.budget(6, 12))),
         ("buckets", gen_pl(rng, ctx.budget(60, 1500), ctx.budget(25, 60))),
         ("octree", gen_oct(rng, ctx.budget(40, 800), ctx.budget(20, 40))),
+        ("voronoi", gen_vor(rng, ctx.budget(6, 60), ctx.budget(10, 30), ctx.budget(25, 60))),
         ("amrdensitygrid", gen_amrd(rng, ctx.budget(25, 400), ctx.budget(12, 30), ctx.budget(30, 80))),
         ("cartesian", gen_cart_exact(rng, ctx.budget(40, 400)) + gen_cart(rng, ctx.budget(40, 800), ctx.budget(25, 60), ctx.budget(40, 120), ctx.thorough)),
     ]
@@ -709,7 +758,8 @@ def run(ctx):
                        "non-trivial = every line (each op exercises at least one modelled function on generated data); "
                        "branch_histogram = model branch tags (increase_indices branch, set_max_range choice, AMR leaf depth, "
                        "Cartesian ray outcome x cells x periodicity, neighbour boundary count, bucket search exit and level, AMRDensityGrid leaf depth / "
-                       "ray outcome / level change / periodic wrap, Octree result size)")
+                       "ray outcome / level change / periodic wrap, Octree result size, redirected photons); the voronoi stream has no model: "
+                       "its lines are evaluations of the implementation oracles only and are not counted in the bit-exact rate)")
     if not ok:
         return
     for name, ops in streams:
@@ -769,7 +819,7 @@ MANIFEST = dict(
           "(amr_absorbed_cell_contains_end, false before d8e5613); every deposit goes to the leaf whose closed box contains the "
           "whole segment (amr_segments_in_cells, false before 39f0cc7); the stored neighbour is geometrically adjacent across "
           "refinement levels and periodic faces (amr_neighbours_geometric). Octree (Model/Octree.lean, bit-exact incl. result "
-          "order): pruned get_ngbs / get_ngbs_sphere = brute force over the stored points under the covering hypotheses "
+          "order; photons built by the constructor and redirected by set_direction both carry 1/direction, photon_inverse_direction): pruned get_ngbs / get_ngbs_sphere = brute force over the stored points under the covering hypotheses "
           "(octree_search_is_bruteforce); the tree built by add_position + set_auxiliaries(max) satisfies them for the Euclidean "
           "distances, for every number of positions (octree_build_search_partial); a one-position tree returns its point iff it is in "
           "range (octree_single_position, false before the get_first_node fix); add_position loses no index "
@@ -779,7 +829,8 @@ MANIFEST = dict(
           "rounding is not modelled. cartesian_segments assumes inverse direction = 1/direction, a non-zero direction and DBL_MAX "
           "above every wall distance (RayOK). Not proved: termination of interact in periodic grids without opacity (genuinely non-terminating); "
           "Octree::get_closest_ngb and the periodic Octree covering (modelled and compared bit-exactly, brute-force oracle, no theorem); that "
-          "every position is stored in the Octree (recursion fuel 64, see assumptions); Voronoi grids (C15 not applicable). The AMR "
+          "every position is stored in the Octree (recursion fuel 64, see assumptions); Voronoi grids have no model and no theorem (C15 not applicable): VoronoiDensityGrid is driven with 0/1/3 Lloyd iterations and judged only by "
+          "grid-independent oracles on the implementation (nearest-generator location, chord oracle through get_cell_index). The AMR "
           "traversal theorems need no 2:1 level balance; they exclude a leaf spanning a periodic axis (own neighbour, ds = 0 forever). max_range_is_last needs "
           "the cubic grid PointLocations always builds (Lean counterexample for 5x1x3). Five genuine defects of /repo were exposed by "
           "this check and are fixed (2fae05a, d8603ab, d8e5613, 39f0cc7 and the one-position Octree walk; known_findings.txt); their reproducers stay in corpus/C16 and "
